@@ -101,18 +101,20 @@ def run(res, tier, seed):
     W = 6
 
     # ---- D
-    runs = [("MC_Stub", os.path.join(vlib.SPEC, "MC_Stub.cfg")),
-            ("MC_Stub_names", os.path.join(vlib.SPEC, "MC_Stub_names.cfg")),
-            ("MC_Stub_live", os.path.join(vlib.SPEC, "MC_Stub_live.cfg"))]
+    # configuration sets about candidate lists have no literals, local answers or second families
+    NAMES_ONLY = ("AnswerLiteral", "AnswerLocally", "FallbackFamily")
+    runs = [("MC_Stub", os.path.join(vlib.SPEC, "MC_Stub.cfg"), ()),
+            ("MC_Stub_names", os.path.join(vlib.SPEC, "MC_Stub_names.cfg"), NAMES_ONLY),
+            ("MC_Stub_live", os.path.join(vlib.SPEC, "MC_Stub_live.cfg"), ())]
     if thorough:
         runs.append(("MC_Stub_namesBig", write_cfg(wd, "MC_Stub_namesBig", cfgs="MC_CfgsNamesBig", outcomes="AllOutcomes",
-                                                   rules="Strict", tail=INVS)))
+                                                   rules="Strict", tail=INVS), NAMES_ONLY))
         runs.append(("MC_Stub_strategyBig", write_cfg(wd, "MC_Stub_strategyBig", cfgs="MC_CfgsStrategyBig", outcomes="AllOutcomes",
-                                                      rules="Strict", tail=INVS)))
+                                                      rules="Strict", tail=INVS), ("AnswerLiteral", "AnswerLocally")))
         runs.append(("MC_Stub_hostsBig", write_cfg(wd, "MC_Stub_hostsBig", cfgs="MC_CfgsHostsBig", outcomes="AllOutcomes",
-                                                   rules="Strict", tail=INVS)))
-    for name, cfg in runs:
-        st = vlib.mc(mc_tla, cfg, wd, workers=W, timeout=1500)
+                                                   rules="Strict", tail=INVS), ("AnswerLiteral",)))
+    for name, cfg, az in runs:
+        st = vlib.mc(mc_tla, cfg, wd, workers=W, timeout=1500, allow_zero=az)
         res.add_mc(name, st)
     # the rules the code follows today, kept as documented counterexamples (never used for conformance)
     asis = {}
